@@ -2,6 +2,7 @@ package shimagent
 
 //vsym:pkg github.com/theparanoids/ysshra/agent/shimagent
 //vsym:include shim/world.go
+//vsym:include shim/peek.go || shim/peek_bb.go
 //vsym:entry H19_label_survives_the_agent
 //vsym:replay same-harness
 //vsym:expect-cover C19.shim.label
